@@ -316,13 +316,16 @@ def main():
     return rc
 
 
-def build_all(flavours, workdir, drivers):
-    """Build libs (+ isal ref + driver binaries) for all flavours in parallel."""
+def build_all(flavours, workdir, drivers, pairs=None):
+    """Build libs (+ isal ref + driver binaries) for all flavours in parallel.
+    pairs: set of (flavour, driver) actually needed (default: every combination)."""
     def one(fl):
         libdir = B.build_lib(fl, workdir)
         B.build_isal_ref(fl, workdir)
         bins = {}
         for d in drivers:
+            if pairs is not None and (fl, d) not in pairs:
+                continue
             srcs = [os.path.join(VERIF, s) for s in DRIVER_SOURCES[d]["src"]]
             cfl = list(DRIVER_SOURCES[d].get("cflags", []))
             bins[d] = B.build_driver(fl, workdir, d, srcs, extra_cflags=cfl,
@@ -339,7 +342,7 @@ def run_check(prop, spec, tier, seed, workdir, t0, only_run=None):
     flavours = sorted({r["flavour"] for r in runs})
     drivers = sorted({r["driver"] for r in runs})
     tb = time.time()
-    built = build_all(flavours, workdir, drivers)
+    built = build_all(flavours, workdir, drivers, pairs={(r["flavour"], r["driver"]) for r in runs})
     build_s = time.time() - tb
 
     # schedule all shards of all runs on a 16-wide pool
